@@ -152,7 +152,7 @@ def cases(draw):
     design = big_design(draw(st.integers(190, 260)), draw(st.integers(6, 16)), draw(st.integers(0, 99)))
     seq = draw(rtl_gen.input_seqs(design, ncycles=3))
     return {"design": design, "seq": seq, "big": True}
-  design = draw(rtl_gen.designs(max_steps=5))
+  design = draw(rtl_gen.designs(max_steps=5, ifcs=draw(st.booleans()), conn_bias=draw(st.sampled_from([0, 1, 2])), struct_bias=draw(st.sampled_from([0, 1]))))
   base = draw(rtl_gen.input_seqs(design, ncycles=draw(st.integers(4, 9))))
   # revisit earlier input vectors
   seq = []
@@ -171,6 +171,7 @@ def run_shard(ctx):
   def t(case):
     if ctx.out_of_time(): return
     ctx.count()
+    for f_ in rtl_gen.features(case["design"]): ctx.label(f_)
     stats = {}
     v = judge(case, stats)
     has_struct = '["s",' in repr(case["design"]).replace("'", '"')
